@@ -428,6 +428,13 @@ class FnA:
             if isinstance(e, str):
                 continue
             if "f" in e:
+                if t[0] == "call" and len(t) == 4:
+                    # a field of what a constructor-like function returns (`..Self::new_x(a, b)`):
+                    # read it off the function's summary — the call site itself stays a call site
+                    sm = self._summary(t[2], allow_anchor=True)
+                    if sm is not None and len(sm[0]) == len(t[3]):
+                        t = project_field(subst_params(sm[1], dict(zip(sm[0], t[3]))), e["n"])
+                        continue
                 t = project_field(t, e["n"])
             elif "d" in e:
                 t = ("variant", t, e["n"])
@@ -573,18 +580,19 @@ class FnA:
     local_adts = frozenset()  # set by the engine: names of the analysed crate's own structs / enums
     _summaries = {}
 
-    def _summary(self, callee):
+    def _summary(self, callee, allow_anchor=False):
         """(param names, return term) of a trivial crate-local function: straight-line, no calls
         other than transparent ones, returning a value built only from its parameters —
         e.g. a constructor `fn new(a, b) -> Self { Self { a, b } }`.  Lets provenance terms
         see through small helpers so that extracting one does not change a verdict."""
         if FnA.resolver is None or callee is None:
             return None
-        if callee in FnA._summaries:
-            return FnA._summaries[callee]
-        FnA._summaries[callee] = None
+        ck = (callee, allow_anchor)
+        if ck in FnA._summaries:
+            return FnA._summaries[ck]
+        FnA._summaries[ck] = None
         fa = FnA.resolver(callee)
-        if fa is None or fa is self or fa.body.is_coroutine or len(fa.nodes) > 6 or callee in NO_SUMMARY:
+        if fa is None or fa is self or fa.body.is_coroutine or len(fa.nodes) > 6 or (callee in NO_SUMMARY and not allow_anchor):
             return None
         for n, t in fa.calls():
             cal = t.get("callee")
@@ -605,8 +613,8 @@ class FnA:
                 ok = False
         if not ok or ret[0] != "agg":
             return None  # only constructor-like helpers
-        FnA._summaries[callee] = (names, ret)
-        return FnA._summaries[callee]
+        FnA._summaries[ck] = (names, ret)
+        return FnA._summaries[ck]
 
     def _vec_macro_contents(self, arg, bi, pos, depth, seen):
         """`vec![a, b]` expands to Box::new_uninit(); (*box).. = [a, b];
